@@ -199,11 +199,15 @@ func (in *Interp) callx(f Value, args []Value, node int, viaMeta, tail bool) []V
 	if fn.builtin != nil {
 		return fn.builtin(in, args, node)
 	}
-	t.depth++
-	if t.depth > in.MaxDepth {
-		unspec("deep recursion")
+	if !tail {
+		// nested tail calls are unlimited (§3.4.10); other recursion deeper than
+		// MaxDepth is an implementation limit the manual does not fix
+		t.depth++
+		if t.depth > in.MaxDepth {
+			unspec("deep recursion")
+		}
+		defer func() { t.depth-- }()
 	}
-	defer func() { t.depth-- }()
 	fr := &frame{callNode: node, lua: true, viaMeta: viaMeta, tail: tail, parent: t.frame}
 	var env *binding = fn.env
 	p := fn.proto
@@ -559,10 +563,18 @@ func (in *Interp) stmt(s prog.Stmt, envp **binding, tbcs *[]tbcEntry, fr *frame)
 		return in.genFor(x, env, fr)
 	case *prog.Return:
 		if len(x.Exprs) == 1 && len(*tbcs) == 0 {
-			if c, ok := x.Exprs[0].(*prog.Call); ok {
-				// a tail call (only relevant for error level 2 positions)
+			// `return functioncall`: a tail call (§3.4.10).  It matters for error
+			// level 2 positions and for the recursion depth: "there is no limit on
+			// the number of nested tail calls".
+			switch c := x.Exprs[0].(type) {
+			case *prog.Call:
 				f := in.expr1(c.Fn, env, fr)
 				args := in.exprList(c.Args, env, fr)
+				return ctl{kind: cReturn, vals: in.callx(f, args, c.ID, false, in.tailOK(fr))}
+			case *prog.Method:
+				obj := in.expr1(c.Obj, env, fr)
+				f := in.index(obj, c.Name, c.ID)
+				args := append([]Value{obj}, in.exprList(c.Args, env, fr)...)
 				return ctl{kind: cReturn, vals: in.callx(f, args, c.ID, false, in.tailOK(fr))}
 			}
 		}
